@@ -2,8 +2,13 @@ package harness
 
 import (
 	"bytes"
+	"crypto/sha256"
 	"fmt"
+	"os"
+	"os/exec"
+	"regexp"
 	"runtime"
+	"strings"
 	"sync"
 	"testing"
 
@@ -341,4 +346,116 @@ func TestC14Vocab512k(t *testing.T) {
 	st := NewStats("C14Vocab512k", c14VocabRule)
 	defer st.Flush()
 	c14Vocab(t, st, 1800, 299, 1100, 499)
+}
+
+// ---- process-level history: the same build in fresh processes whose FIRST builds differ ----
+
+const c14ProcRule = "case = a target batch (one of 4 shapes) and chunk mode, built in 3..4 fresh child processes (the test binary re-executed) after different first builds: nothing, a document with a 1.5 MiB stored value, a >1024-document batch, " +
+	"600 distinct terms, a tiny batch; oracle = every child reports the same SHA-256 of the target's bytes (state initialised once per process - encoder singletons, sync.Once - must not depend on what was built first); " +
+	"non-trivial = >= 3 children with different first builds agree; distinct = target shape + mode + prefixes"
+
+func c14ProcTarget(kind int) Batch {
+	sc := &Scenario{Schema: map[string]int{"a": dvAlways}, Norm: normFns[0]}
+	switch kind {
+	case 0:
+		b := make(Batch, 60)
+		for i := range b {
+			b[i].Fields = []Field{{Name: "a", Len: 2, DV: true, Terms: []Term{{T: fmt.Sprintf("t%d", i%7), Freq: 1}, {T: "common", Freq: 1, Locs: []Loc{{Pos: i, Start: 1, End: 2}}}}},
+				{Name: "title", Store: true, Value: fmt.Sprintf("stored value of document %d %s", i, strings.Repeat("x", i))}}
+		}
+		return b
+	case 1:
+		return BlocksParams{N: 300, TermPer: 3, IDEvery: 1, ValPos: []int{5, 127, 0}, ValLen: []int{20, 3, 0}, StoreAll: 5}.Batch(sc)
+	case 2:
+		return Batch{{Fields: []Field{{Name: "a", Len: 1, Terms: []Term{{T: "x", Freq: 1}}}, {Name: "title", Store: true, Value: incompressible(2<<20, 7)}}}, {Fields: []Field{{Name: "title", Store: true, Value: strings.Repeat("compressible ", 200000)}}}}
+	default:
+		return WideParams{N: 1100, SparsePer: 40, FreqMod: 2, DenseLocs: 5}.Batch(sc)
+	}
+}
+
+func c14ProcPrefix(kind string) Batch {
+	sc := &Scenario{Schema: map[string]int{"a": dvAlways}, Norm: normFns[0]}
+	switch kind {
+	case "bigstored":
+		return Batch{{Fields: []Field{{Name: "title", Store: true, Value: incompressible(3<<19, 3)}}}}
+	case "wide":
+		return WideParams{N: 2100, SparsePer: 1, FreqMod: 1}.Batch(sc)
+	case "terms":
+		b := Batch{{}}
+		f := Field{Name: "a"}
+		for i := 0; i < 600; i++ {
+			f.Terms = append(f.Terms, Term{T: fmt.Sprintf("w%03d-suffix", i), Freq: 1})
+			f.Len++
+		}
+		b[0].Fields = []Field{f}
+		return b
+	case "tiny":
+		return Batch{{Fields: []Field{{Name: "a", Len: 1, Terms: []Term{{T: "x", Freq: 1}}}}}}
+	}
+	return nil
+}
+
+// TestC14Child is the body of a child process: it does nothing unless asked to.
+func TestC14Child(t *testing.T) {
+	spec := os.Getenv("VERIF_C14_CHILD")
+	if spec == "" {
+		t.Skip("only runs as a child of TestC14Process")
+	}
+	var prefix string
+	var kind, mode int
+	if _, err := fmt.Sscanf(spec, "%d %d %s", &kind, &mode, &prefix); err != nil {
+		t.Fatalf("bad spec %q: %v", spec, err)
+	}
+	if pb := c14ProcPrefix(prefix); pb != nil {
+		if _, err := buildBytes(pb, normFns[1], 1025); err != nil {
+			t.Fatalf("prefix build: %v", err)
+		}
+	}
+	bs, err := buildBytes(c14ProcTarget(kind), normFns[0], uint32(mode))
+	if err != nil {
+		t.Fatalf("target build: %v", err)
+	}
+	fmt.Printf("C14HASH:%x:%d\n", sha256.Sum256(bs), len(bs))
+}
+
+func c14ProcProp(st *CaseStats) func(t *rapid.T) {
+	return func(t *rapid.T) {
+		kind := rapid.IntRange(0, 3).Draw(t, "targetKind")
+		mode := 1025
+		if HooksOn {
+			mode = int(rapid.SampledFrom([]uint32{1025, 1025, 2, 1024}).Draw(t, "mode"))
+		}
+		all := []string{"none", "bigstored", "wide", "terms", "tiny"}
+		first := rapid.IntRange(0, 1).Draw(t, "firstPrefix")
+		prefixes := []string{"none"}
+		for i := 1; i < len(all); i++ {
+			if i == 1 || (i+first)%2 == 0 || rapid.Bool().Draw(t, "prefix:"+all[i]) {
+				prefixes = append(prefixes, all[i])
+			}
+		}
+		desc := fmt.Sprintf("target %d mode %d first builds %v", kind, mode, prefixes)
+		hashes := map[string]string{}
+		for _, p := range prefixes {
+			cmd := exec.Command(os.Args[0], "-test.run=^TestC14Child$", "-test.count=1")
+			cmd.Env = append(os.Environ(), fmt.Sprintf("VERIF_C14_CHILD=%d %d %s", kind, mode, p), "VERIF_STATS_DIR=")
+			out, err := cmd.CombinedOutput()
+			m := regexp.MustCompile(`C14HASH:([0-9a-f]+:[0-9]+)`).FindSubmatch(out)
+			if err != nil || m == nil {
+				t.Fatalf("INFRA: child process for %s (first build %q) failed: %v\n%s", desc, p, err, out)
+			}
+			hashes[p] = string(m[1])
+		}
+		for _, p := range prefixes {
+			if hashes[p] != hashes["none"] {
+				t.Fatalf("%s:\n  built as the first build of a fresh process the target hashes to %s; in a fresh process whose first build was %q it hashes to %s", desc, hashes["none"], p, hashes[p])
+			}
+		}
+		st.Record(desc, len(prefixes) >= 3, fmt.Sprintf("children=%d", len(prefixes)))
+	}
+}
+
+func TestC14Process(t *testing.T) {
+	st := NewStats("C14Process", c14ProcRule)
+	defer st.Flush()
+	rapid.Check(t, c14ProcProp(st))
 }
